@@ -66,6 +66,10 @@ def check(w):
     for k, s in enumerate(base):
         for rv in ("client", "daemon"):
             scen.append(dict(s, recv=rv, delete=(k % 2 == 0), **{"class": "hostile-list"}))
+            # ... and with file data for the hostile entry pushed WITHOUT a request (the receiver accepts data for any index
+            # of the list, whatever its type); every third scenario in the quick tier
+            if not quick or k % 3 == 0:
+                scen.append(dict(s, recv=rv, delete=False, push=True, **{"class": "unrequested-data"}))
     # the sub-directory argument of a daemon upload
     for sub in SUBS:
         for dele in (False, True):
@@ -81,7 +85,7 @@ def check(w):
             return ("/ABS/" + n) if rnd.random() < 0.1 else n
         more = [{"name": nm(), "t": rnd.choice(types)} for _ in range(rnd.randrange(1, 5))]
         scen.append({"name": nm(), "t": rnd.choice(types), "sends": rnd.random() < 0.5, "escapes": True, "recv": rnd.choice(["client", "daemon"]),
-                     "delete": rnd.random() < 0.5, "more": more, "class": "random-list"})
+                     "delete": rnd.random() < 0.5, "push": rnd.random() < 0.3, "more": more, "class": "random-list"})
     for i, s in enumerate(scen):
         s["id"] = i + 1
     obs, summ = run(w, scen, "all")
@@ -90,8 +94,13 @@ def check(w):
         byid = {s["id"]: s for s in scen}
         obs2, _ = run(w, [byid[i] for i in sorted(rej)], "confirm")
         rej2, _, _ = validate(w, obs2, "confirm")
-        if set(rej) - set(rej2):
-            raise Broken("rejections not reproduced on re-run: %s" % sorted(set(rej) - set(rej2))[:10])
+        lost = set(rej) - set(rej2)
+        if lost and (not rej2 or any(not byid[i].get("push") for i in lost)):
+            raise Broken("rejections not reproduced on re-run: %s" % sorted(lost)[:10])
+        if lost:
+            # unrequested data races with the generator (which may end the session first): an outside effect that did not
+            # show again is no verdict; the reproduced ones are
+            v.notes.append("%d rejected unrequested-data runs did not reproduce (receiver/generator race) and were dropped; %d reproduced" % (len(lost), len(rej2)))
         for o in obs2:
             if o["id"] in rej2:
                 v.violation(sig(o), {"scenario": o["scn"], "observed": {k: o[k] for k in ("result", "err", "changed", "events", "leak")}})
@@ -122,7 +131,7 @@ def check(w):
         "evaluations": len(obs), "distinct_nontrivial": len(eff),
         "rule": "hostile entry names of 1..3 components over {a, l (pre-existing link out), lf (link to outside file), s (link out sent first in the same list), ..} optionally absolute, "
                 "x entry type {reg, dir, lnk, fifo, sock, chr} x {s sent first or not} x --delete on/off, on the real client receiver and a writable daemon module (run as root with -rlptgoD); "
-                "plus the daemon's destination sub-directory argument over a traversal grammar, plus random longer lists; non-trivial = a path-joining receiver would reach the outside region (Confine!Escapes)",
+                "the same lists with file data pushed for the hostile entry without a request; plus the daemon's destination sub-directory argument over a traversal grammar, plus random longer lists; non-trivial = a path-joining receiver would reach the outside region (Confine!Escapes)",
         "by_class_and_result": {"%s/%s" % k: n for k, n in sorted(by.items())},
         "action_coverage": cov, "negative_controls": len(bad), "worker_crashes": summ["crashed"],
     }
